@@ -367,3 +367,20 @@ pub fn exact_multiples(bits: usize, ds: &[u64]) -> Vec<(Limbs, Limbs)> {
 }
 /// Ordinary-looking one-limb divisors: small odd primes, an odd divisor of 2^64-1, products with powers of two, a 20-bit and a 64-bit prime-like constant.
 pub const ORDINARY_DIVISORS: &[u64] = &[3, 7, 10, 11, 13, 56, 641, 1_000_003, 1_000_003 << 5, 4_294_967_291, 10_000_000_000_000_000_000, 0x9E37_79B9_7F4A_7C15, 0x0101_0101_0101_0101, 7 << 40];
+
+/// `pick`, but never larger than `budget`: when even P'(B) is too large it is thinned evenly (0 and MAX are kept).
+pub fn pick_capped(bits: usize, budget: usize, extra: &[u64]) -> (Vec<Limbs>, String) {
+    let (v, d) = pick(bits, budget, extra);
+    if v.len() <= budget || budget < 4 {
+        return (v, d);
+    }
+    let step = (v.len() + budget - 3) / (budget - 2);
+    let mut out: Vec<Limbs> = v.iter().step_by(step).cloned().collect();
+    out.push(v[v.len() - 1].clone());
+    out.push(max_limbs(bits));
+    out.push(vec![0; nlimbs(bits)]);
+    out.sort();
+    out.dedup();
+    let n = out.len();
+    (out, format!("{d} thinned to {n}"))
+}
